@@ -77,7 +77,7 @@ use std::{
     marker::PhantomData,
     ops::{Deref, DerefMut},
     sync::{
-        atomic::{AtomicUsize, Ordering},
+        atomic::Ordering,
         Arc, Weak,
     },
     time::Duration,
@@ -92,7 +92,7 @@ use tokio::sync::{Semaphore, TryAcquireError};
 
 // verification builds: the lock and the semaphores are the instrumented ones
 #[cfg(deadpool_verif)]
-use crate::verif::{Mutex, Semaphore};
+use crate::verif::{AtomicUsize, Mutex, Semaphore};
 #[cfg(deadpool_verif)]
 use tokio::sync::TryAcquireError;
 
@@ -686,7 +686,7 @@ impl<M: Manager, W: From<Object<M>>> Pool<M, W> {
             max_size: slots.max_size,
             idle_len: slots.vec.len(),
             debt: slots.debt,
-            users: self.inner.users.load(Ordering::Relaxed),
+            users: self.inner.users.raw_load(),
         }
     }
 
